@@ -6,6 +6,14 @@ p = props[pid]
 rnd = sys.argv[2] if len(sys.argv) > 2 else "1"
 wt = f"/tmp/wt-{pid}" if rnd == "1" else f"/tmp/w{rnd}-{pid}"
 extra = "" if rnd == "1" else """ In this round, stay away from the most obvious single-operator flips inside the main function the property names: prefer changes in helper functions, in call sites and argument wiring, in initialisation / configuration paths, in error or rarely-taken branches, in the interaction of two functions that each still look right, or in the less prominent clauses of the statement and of its quantifier text (unusual configurations, empty / boundary inputs, rotation or restart histories)."""
+if rnd not in ("1","2"):
+    import glob, os
+    prev=[]
+    for d in sorted(glob.glob(f"/verif/seeded/{pid}-*")):
+        try: prev.append("  - "+json.load(open(d+"/meta.json")).get("summary","")[:260].replace("\n"," ")+" ...")
+        except Exception: pass
+    extra += """ Changes of the following kinds have ALREADY been collected for this property in earlier rounds; do NOT repeat them or close variants of them (same function + same mechanism) - find breakage somewhere else: a different function, a different clause of the statement, a different file, a cooperating pair of edits in two functions, a concurrency/ordering change (lock scope, goroutine hand-off, channel use), a resource/cleanup path, a configuration-dependent branch, or an arithmetic/boundary condition that only some configurations reach:
+""" + "\n".join(prev) + "\n"
 print(f"""You are working on a scratch git worktree of the Go library hashicorp/memberlist (SWIM/Lifeguard gossip membership) at {wt}. Work ONLY inside {wt}. Never touch /repo or /verif, never read anything under /verif, and do not commit anything.
 
 Environment (the sandbox has NO network; run this at the start of every shell command because the environment does not persist):
